@@ -104,7 +104,13 @@ impl TryFrom<Vec<u8>> for ModuleStatus {
     fn try_from(value: Vec<u8>) -> Result<Self, Self::Error> {
         let mut buf = Bytes::copy_from_slice(&value);
 
+        if buf.remaining() < 2 {
+            return Err(());
+        }
         let name_len = buf.get_u16() as usize;
+        if buf.remaining() < name_len + 2 {
+            return Err(());
+        }
         let name = buf.split_to(name_len).to_vec();
         let name = String::from_utf8_lossy(&name).to_string();
 
@@ -112,6 +118,7 @@ impl TryFrom<Vec<u8>> for ModuleStatus {
 
         let error = match buf.get_u8() {
             0 => None,
+            1 if !buf.has_remaining() => return Err(()),
             1 => match buf.get_u8() {
                 0 => Some(ModuleError::InvalidConfiguration),
                 1 => Some(ModuleError::VersionMismatch),
